@@ -221,7 +221,9 @@ def case_arange(ctx, inp):
             return
         ctx.eq("arange_f: takes the `arange(0, stop-start, step) + start` path", m[0], r.name.startswith("add-"))
         ctx.eq("arange_f: the harness' copy of the guard", m[0], shifted)
-        ctx.eq("arange_f: num (binary64 ceil((stop-start)/step))", m[1], len(e))
+        ctx.eq("arange_f: num (binary64 ceil((stop-start)/step), underflow rule)", m[1], len(e))
+        if (pb - pa) / ps == 0 and pb != pa:
+            ctx.branch("arange:quotient-underflows")
         try:
             blocks = [[Fraction(float(v)) for v in np.asarray(r.blocks[i].compute(scheduler="sync"))] for i in range(len(cs))]
         except Exception as ex:
@@ -778,7 +780,7 @@ def _gen_eye(ctx):
             for c in range(1, 9):
                 for k in range(-N - 1, M + 2):
                     if not ctx.thorough():
-                        p = 1 / 6 if (k in (-N, -1, 0, 1, N, M - 1, M) and M != N) else 1 / 16
+                        p = 1 / 6 if (k in (-N, -1, 0, 1, N, M - 1, M) and M != N) else 1 / 20
                         if rng.random() >= p:
                             continue
                     yield "eye", {"N": N, "M": M, "k": k, "chunks": c, "dtype": "i8"}
@@ -788,7 +790,7 @@ def _gen_eye(ctx):
                 for c in ["auto"] + _EYE_BYTES:
                     for k in range(-N - 1, (N if M is None else M) + 2):
                         yield "eye", {"N": N, "M": M, "k": k, "chunks": c, "dtype": "i8"}
-    for _ in range(ctx.n(120, 2000)):
+    for _ in range(ctx.n(90, 2000)):
         N, M = rng.randint(0, 12), rng.choice([None, rng.randint(0, 12)])
         yield "eye", {"N": N, "M": M, "k": rng.randint(-13, 13), "chunks": rng.choice([rng.randint(1, 14), "auto", "16B", "64B"]),
                       "dtype": rng.choice(["f8", "i8", "bool", "f4"])}
@@ -840,6 +842,17 @@ def _gen_arange_float(ctx):
         stop = start + n * step + rng.choice([0, 0, step / 2, -step / 3])
         yield "arange", {"start": _hx(start), "stop": _hx(stop), "step": _hx(step),
                          "chunks": rng.choice([1, 2, 3, 5, 7, "auto"]), "dtype": None}
+    for _ in range(ctx.n(30, 400)):
+        # (stop - start) / step underflows to zero although stop != start (NumPy: one element if the quotient is +0.0),
+        # infinite steps, the sign of a zero start
+        tiny = 5e-324
+        a = rng.choice([0.0, 0.0, -0.0, tiny * rng.randint(-5, 5), 1.0, rng.uniform(-1, 1)])
+        b = a + tiny * rng.randint(-6, 6) if rng.random() < 0.7 else a + rng.uniform(-3, 3)
+        st = rng.choice([1, -1]) * rng.choice([1.0, 1310720.0, 1e300, math.inf, 0.5, tiny * 3, 1e-310])
+        if abs((b - a) / st) > 500:
+            continue
+        yield "arange", {"start": _hx(a), "stop": _hx(b), "step": _hx(st), "chunks": rng.choice([1, 2, "auto"]),
+                         "dtype": rng.choice([None, None, "f4"])}
     for _ in range(ctx.n(12, 150)):
         # float arguments with an integer dtype (documented NumPy quirk; pinned strict xfail in dask's suite)
         d = rng.choice([10, 4, 3])
@@ -871,7 +884,7 @@ def _gen_softfloat(ctx):
     import math
     rng = ctx.rng
     yield "softfloat", {"op": "const"}
-    for _ in range(ctx.n(420, 9000)):
+    for _ in range(ctx.n(360, 9000)):
         op = rng.choice(["add", "add", "sub", "sub", "mul", "mul", "div", "div", "div", "ceil", "le", "isclose", "ofint"])
         if op == "ofint":
             k = rng.choice([52, 53, 54, 60, 63, 64, 100])
@@ -947,7 +960,7 @@ _DENS = [10, 3, 7, 100, 1000, 9, 6, 64]
 def _gen_arange_int(ctx):
     rng = ctx.rng
     # --- arange: integers (function level) -------------------------------------------------------
-    for _ in range(ctx.n(380, 6000)):
+    for _ in range(ctx.n(300, 6000)):
         a, b = rng.randint(-20, 20), rng.randint(-20, 30)
         s = rng.choice([1, 1, 2, 3, 5, 7, -1, -2, -3, -7, 0]) if rng.random() < 0.9 else rng.randint(-40, 40)
         n = max(0, -((a - b) // s)) if s else 0
@@ -974,7 +987,7 @@ def _gen_arange_int(ctx):
 def _gen_arange_frac(ctx):
     rng = ctx.rng
     # --- arange: fractional steps aimed at length-rounding edges -------------------------------------
-    for _ in range(ctx.n(300, 5000)):
+    for _ in range(ctx.n(240, 5000)):
         d = rng.choice(_DENS)
         sgn = rng.choice([1, 1, 1, -1])
         sn = rng.randint(1, 9) * sgn
